@@ -49,6 +49,29 @@ class FrpProp(Prop):
 
     spec_is_oracle = True
 
+    def agree(self, batch, name, lines, mout, io):
+        io2 = strip_ann(io)
+        if getattr(self, "_alt_src", None) is not mout:
+            idx = {}
+            for k, v in mout.items():
+                idx.setdefault(k.split("@", 1)[0], []).append((k, v))
+            for k in idx:
+                idx[k].sort(key=lambda kv: (len(kv[0]), kv[0]))
+            self._alt_src, self._alt_idx = mout, idx
+        alts = [v for _, v in self._alt_idx.get(name, [])]
+        if not alts:
+            return "no specification output"
+        if any("illegal" in x for x in alts[0]):
+            return None     # not a legal program (instantaneous cycle): nothing is specified
+        if io2 in alts:
+            return None
+        mo = alts[0]
+        k = next((j for j, (x, y) in enumerate(zip(mo, io2)) if x != y), min(len(mo), len(io2)))
+        return "line %d (%s): specified %r%s, observed %r" % (
+            k + 1, lines[k] if k < len(lines) else "?", mo[k] if k < len(mo) else None,
+            " (or %d other allowed orders of deferred transactions)" % (len(alts) - 1) if len(alts) > 1 else "",
+            io2[k] if k < len(io2) else None)
+
     def nontrivial(self, batch, name, lines, out):
         return any(("L" in o and "=[" in o) or o.startswith("sample") for o in out)
 
